@@ -98,7 +98,8 @@ P = {
          "names the job at the release position of the pre-buffer, no transition of another machine touches that pre-buffer, and "
          "the agent is offered machine starts only from unordered pre-buffers - composed over whole runs of every instance: every "
          "IDLE->SETUP in the micro-log of every decision takes the job at the release position of the pre-buffer as it was in the "
-         "micro-state before (C08_machines_take_the_released_job_every_instance; C08_created_machine_start_names_the_released_job, "
+         "micro-state before, and every AGV that takes a job takes it from the release position (both event clauses along the chain of "
+         "micro-states: C08_every_taker_takes_the_released_job_every_instance; C08_created_machine_start_names_the_released_job, "
          "C08_pre_buffer_untouched_by_other_machines, C08_offered_machine_start_only_for_unordered_pre_buffer; SMP/Release.v); "
          "extracted event monitors (ev_pre_release, ev_transit_release, ev_stores) on every applied transition. " + TIE),
  "C09": ("SM", "Theorems (Props/C09.v): IDLE->SETUP reads matrix[(mounted tool, new tool)], stamps now + that value, mounts the new tool, "
